@@ -24,6 +24,12 @@ def run(ctx):
             reg, r = sess.parse(t)
             if reg is not None:
                 regs.append(reg)
+        # comparisons of extra with a text that is not a valid name (kept, never matching), alone and combined: every run
+        for t in ("extra != 'x y'", "extra == 'x y'", "os_name == 'posix' and extra != 'x y'", "extra == 'a' and extra != 'not valid!'", "extra == 'a' or extra == 'not valid!'",
+                  "python_version >= '3.8' and 'é' != extra"):
+            reg, r = sess.parse(t)
+            if reg is not None:
+                regs.append(reg)
         for _ in range(80 if quick else 300):
             k = ctx.rng.choice(['and', 'or', 'not'])
             reg, _ = sess.op(k, ctx.rng.choice(regs), ctx.rng.choice(regs)) if k != 'not' else sess.op('not', ctx.rng.choice(regs))
